@@ -26,7 +26,12 @@ def gen_run(dfols, seed_tuple, allow=None, alarm=10.0, mutate_cfg=None, fault=No
     if fault is not None:
         f = problems.faulty(f, fault[0], fault[1])
         d["fault"] = list(fault)
-    t = tr.traced_solve(dfols, f, prob["x0"], alarm=alarm, **kw)
+    kw2 = dict(kw)
+    h = kw2.pop("h", None)
+    # NumPy's GLOBAL generator feeds the documented-random options (random initial directions, growing, momentum,
+    # increase_npt) and the rank-repair loops of the projection branch: seed it so that every run replays exactly
+    np.random.seed(int(sum((j + 1) * int(v) for j, v in enumerate(seed_tuple)) * 7919 % (2 ** 32)))
+    t = tr.traced_solve(dfols, f, prob["x0"], alarm=alarm, h=h, **kw2)
     return prob, kw, d, t
 
 
@@ -133,3 +138,56 @@ def check_acceptor(ctx, acc_name, runs, metas, extra_compare=None, limit_broken=
                     ctx.broke("correspondence:%s-prediction-differs" % acc_name, {"seed": seed, "config": describe(d), "detail": msg})
     ctx.cov["acceptor_" + acc_name] = {"traces": len(runs), "rejected_or_differing": nrej}
     return rejected
+
+
+def budget_sweep(ctx, suite_const, nbases_quick, nbases_thorough, width=36, alarm=10.0):
+    """Budget sweeps: for a few base configurations in which runs end early and restart (hard or soft restarts,
+    averaging, loose rhoend), solve with maxfun = m0, m0+1, ..., m0+width-1.  Off-by-one and exit-route defects in
+    the counters / labels / merges typically show on one or two budgets of such a sweep only."""
+    dfols = core.import_dfols()
+    nb = ctx.scale(nbases_quick, nbases_thorough) * getattr(ctx, "boost", 1)
+    runs, metas = [], []
+    for b in range(nb):
+        rng = np.random.default_rng([ctx.seed, suite_const, 4242, b])
+        prob = problems.rand_problem(rng, nmax=2)
+        mode = ["hard", "hard-newrk", "soft", "hard-newrk"][b % 4]
+        k = int(rng.integers(1, 4))
+        up = {"restarts.use_restarts": True, "restarts.use_soft_restarts": mode == "soft",
+              "restarts.max_unsuccessful_restarts": int(rng.integers(2, 6))}
+        if mode == "hard-newrk":
+            up["restarts.hard.use_old_rk"] = False
+        if rng.random() < 0.3:
+            up["restarts.increase_npt"] = True
+            up["restarts.max_npt"] = prob["n"] + 1 + int(rng.integers(1, 3))
+        if rng.random() < 0.3:
+            up["model.abs_tol"] = float(rng.choice([1e-3, 0.1, 1.0]))
+        m0 = int(rng.integers(prob["n"] + 2, 30))
+        for mf in range(m0, m0 + width):
+            kw = {"rhobeg": float(rng.choice([0.1, 0.3])) if mf == m0 else kw_rhobeg, "rhoend": 1e-2, "maxfun": mf, "user_params": dict(up)}
+            kw_rhobeg = kw["rhobeg"]
+            if k > 1:
+                kw["nsamples"] = (lambda delta, rho, it, nruns, k=k: k)
+            d = {"n": prob["n"], "kind": prob["kind"], "maxfun": mf, "restarts": mode, "sweep": [b, m0], "user_params": dict(up)}
+            if k > 1:
+                d["avg"] = (k, "sweep")
+            np.random.seed((ctx.seed * 1000003 + suite_const * 101 + b * 7 + mf) % (2 ** 32))
+            t = tr.traced_solve(dfols, prob["f"], prob["x0"], alarm=alarm, **kw)
+            ctx.seen(("sweep", suite_const, b, mf, len(t.events)))
+            runs.append((mf, False, t, int(up["restarts.max_unsuccessful_restarts"]), float(up.get("model.abs_tol", 1e-12))))
+            metas.append(([ctx.seed, suite_const, 4242, b, mf], prob, kw, d, t, None))
+    return runs, metas
+
+
+def replay_sweep(dfols, seed):
+    """re-run one budget of a sweep: seed = [ctx.seed, suite_const, 4242, b, mf]"""
+    class _C:  # minimal ctx
+        pass
+    c = _C()
+    c.seed, c.tier, c.boost = seed[0], "quick", 1
+    c.scale = lambda q, t: seed[3] + 1
+    c.seen = lambda *_a: None
+    runs, metas = budget_sweep(c, seed[1], seed[3] + 1, seed[3] + 1)
+    for m in metas:
+        if m[0] == list(seed):
+            return m
+    return None
